@@ -208,14 +208,31 @@ _real_sys = ctxmod.sys
 _real_assign = RenderContext.assign
 
 
+def _independent_size(ctx):
+    """The documented measure, recomputed outside the code under test: the sizes of every value bound in this context's
+    local namespace (one per NAME: two names bound to one object are two entries of the namespace) plus those of the
+    contexts it was copied from."""
+    gs = _Sys().getsizeof
+    total = 0
+    seen = []
+    while ctx is not None:
+        if not any(ctx.locals is x for x in seen):   # a block-scoped copy shares its parent's locals
+            seen.append(ctx.locals)
+            for v in ctx.locals.values():
+                total += gs(v)
+        ctx = ctx.parent_context
+    return total
+
+
 def _assign(self, key, val):
     _real_assign(self, key, val)
-    RECORD.append((self._copy_depth, self.get_size_of_locals(), self.local_namespace_size_carry))
+    RECORD.append((self._copy_depth, self.get_size_of_locals(), self.local_namespace_size_carry, _independent_size(self)))
 
 
 NS_SKEL = {
     "assigns": "{% assign a = v %}{% assign b = n %}{% assign a = w %}",
     "capture": "{% capture a %}{{ v }}{{ w }}{% endcapture %}{% assign b = a %}",
+    "aliases": "{% assign a = v %}{% assign b = a %}{% assign c = b %}{% capture d %}{{ w }}{{ v }}{% endcapture %}{% assign e = d %}{% for i in xs %}{% assign f = d %}{% assign g = 1 %}{% assign h = 1 %}{% endfor %}{% render 'q', v: d %}",
     "loop": "{% for i in xs %}{% assign a = i %}{% capture c %}{{ c }}{{ v }}{% endcapture %}{% endfor %}",
     "render": "{% assign a = v %}{% render 'q', v: w %}{% assign b = w %}",
     "render_nested": "{% assign a = v %}{% render 'q2', v: w %}",
@@ -267,8 +284,8 @@ def _mk_ns(kind):
             NENV.local_namespace_limit = None
         ok = True
         if done:
-            for depth, size, carry in RECORD:
-                ok = ok and size <= M and carry <= size
+            for depth, size, carry, indep in RECORD:
+                ok = ok and size <= M and carry <= size and indep <= M
         # sizes carried into partials: a deeper context's carry is at least the size the caller had
         for i in range(1, len(RECORD)):
             if RECORD[i][0] > RECORD[i - 1][0]:
